@@ -273,7 +273,8 @@ fn many_functions_probe<T: Sc>(rep: &mut Report) {
 /// right hand side problem on that column (coefficients, residual block, Jacobian block), sequential
 /// and parallel.
 fn many_columns_probe<T: Sc>(rep: &mut Report) {
-    for (s, weighted, par) in [(70usize, false, false), (131, true, false), (70, true, true)] {
+    // (300 / 515: more than one block of 256 right hand sides, not a multiple of it)
+    for (s, weighted, par) in [(70usize, false, false), (131, true, false), (70, true, true), (300, true, true), (515, false, true), (257, false, false)] {
         let n = 30usize;
         let h = 2usize;
         let m = 2 * h + 1;
@@ -309,6 +310,30 @@ fn many_columns_probe<T: Sc>(rep: &mut Report) {
                 rep.violation("C07", json!({"flavour": flav, "what": "coefficients / residuals / Jacobian absent although the model evaluates"}));
                 continue;
             };
+            // C01 certificate per column: the residual block is orthogonal to the weighted basis
+            {
+                let pw = model0.phi64(T::of64(wv).to64());
+                let wt = |i: usize| w.as_ref().map(|w| w[i].to64()).unwrap_or(1.0);
+                let mut worst_o = 0.0f64;
+                let mut worst_q = 0usize;
+                for q in 0..s {
+                    let scale = y.column(q).iter().fold(0.0f64, |mx, v| mx.max(v.to64().abs())).max(1e-300);
+                    for j in 0..m {
+                        let mut dot = 0.0f64;
+                        for i in 0..n {
+                            dot += wt(i) * pw[(i, j)] * rm[q * n + i].to64() / scale;
+                        }
+                        let d = dot.abs() / (n as f64);
+                        if !(d <= worst_o) {
+                            worst_o = if d.is_nan() { f64::INFINITY } else { d };
+                            worst_q = q;
+                        }
+                    }
+                }
+                rep.check("C01", worst_o <= T::tol(), worst_o, || {
+                    json!({"flavour": flav, "col": worst_q, "dev": worst_o, "what": "residual block of a right hand side is not orthogonal to the weighted basis: the coefficients of that column are not the least squares optimum"})
+                });
+            }
             let mut worst = 0.0f64;
             let mut worst_col = 0usize;
             for q in 0..s {
@@ -1167,7 +1192,20 @@ fn run_inst<T: Sc>(line: &Line, idx: usize, pools: &Pools, opts: &Opts, rep: &mu
         let yscaled = DMatrix::from_fn(inst.n, inst.s, |i, s| w[i] * inst.y[(i, s)]);
         let twin = build_problem(TableModel::new(scaled_table, &a_first), mrhs, false, &yscaled, None, inst.eps_value(ev));
         // the builder calls in both orders: weights -> observations on odd instances
-        let weighted = if idx % 2 == 1 {
+        // ... and with an earlier weight vector that a later call replaces (the data are weighted once,
+        // with the weights in force when the problem is built)
+        let decoy: Vec<T> = w.iter().map(|v| *v * T::of64(2.0) + T::one()).collect();
+        let weighted = if idx % 4 >= 2 {
+            let mut calls = if idx % 4 == 2 {
+                vec![BCall::Observations(inst.y.clone()), BCall::Weights(decoy), BCall::Weights(w.clone())]
+            } else {
+                vec![BCall::Weights(decoy), BCall::Observations(inst.y.clone()), BCall::Weights(w.clone())]
+            };
+            if let Some(e) = inst.eps_value(ev) {
+                calls.push(BCall::Epsilon(e));
+            }
+            build_with_calls(TableModel::new(inst.table.clone(), &a_first), mrhs, false, &calls).map_err(|e| format!("{e:?}"))
+        } else if idx % 2 == 1 {
             let mut calls = vec![BCall::Weights(w.clone()), BCall::Observations(inst.y.clone())];
             if let Some(e) = inst.eps_value(ev) {
                 calls.push(BCall::Epsilon(e));
